@@ -1,0 +1,13 @@
+//go:build verif
+// +build verif
+
+package strquote
+
+// Exports of the unexported byte functions for the translation validation of the
+// verification framework (compiled only with the build tag "verif").
+
+// VerifNeedsEscape is needsEscape.
+func VerifNeedsEscape(b byte) bool { return needsEscape(b) }
+
+// VerifHexDigit is hexDigit (panics for b >= 16).
+func VerifHexDigit(b byte) byte { return hexDigit(b) }
